@@ -152,7 +152,13 @@ func (p *copyProp) Gen(r *Rand, tier string, idx int) any {
 	}
 	if remote {
 		o.NoTwins, o.OneDigest, o.NoForeign = true, true, false
-		cp.RegProfile = &RegProfile{ReferrersAPI: true, OCISubject: true, DigestHeader: true, Range: r.Bool(), MountOK: r.Bool(), Location: pick(r, []string{"relative", "absolute", "query"}),
+		api := r.Chance(0.8) // otherwise the client maintains referrers tag-schema indexes itself
+		if !api {
+			// the referrers tag of a sha512 subject is longer than a tag may be: recorded
+			// as a known finding under C13, not re-reported by every copy check
+			o.SHA512 = false
+		}
+		cp.RegProfile = &RegProfile{ReferrersAPI: api, OCISubject: api, DigestHeader: true, Range: r.Bool(), MountOK: r.Bool(), Location: pick(r, []string{"relative", "absolute", "query"}),
 			RefCap: pick(r, []int{0, 0, 1, 2}), LinkForm: r.Intn(8)}
 	}
 	if o.Fanout && cp.RegProfile != nil {
